@@ -7,6 +7,7 @@
    (model of the corelib.c templates), all three on the regenerated tables of Gen/Cfuns.lean and the concrete Spec.DP. -/
 import Driver.Util
 import JanetModel.Spec.Emit
+import JanetModel.Spec.CallSite
 open Driver JanetModel.Spec JanetModel.Gen.Cfuns JanetModel.Gen.Bytecode JanetModel.Bytecode.VM
 
 def dropFirst (s : String) (k : Nat) : String := String.ofList (s.toList.drop k)
@@ -50,4 +51,65 @@ def handle (toks : List String) : String :=
     | _, _ => "bad-request"
   | _ => "bad-request"
 
-def main : IO Unit := runLoop () (fun s toks => (s, handle toks))
+/-! ### apply / splice: run the modelled emitted code with the full interpreter on a concrete call oracle -/
+
+/-- `A<n>` is an array of the n integers 100.., everything else is not indexed; a call is logged with its arguments -/
+def dxView (v : DV) : Option (List DV) :=
+  match v with
+  | .tab id => if id.startsWith "A" then (dropFirst id 1).toNat?.map (fun n => (List.range n).map (fun (i : Nat) => DV.int (100 + (i : Int)))) else none
+  | _ => none
+
+def dxCall (f : DV) (args : List DV) (_ : Nat → Option DV) (w : List String) : Except String (DV × (Nat → Option DV)) × List String :=
+  (.ok (.nil, fun _ => none), w ++ [f.canon ++ "(" ++ ",".intercalate (args.map DV.canon) ++ ")"])
+
+def dxErr1 (_ : Op) (_ : List DV) (w : List String) : Except String DV × List String := (.error "unsupported", w)
+def dxErr2 (_ : DV) (_ : Nat) (_ : DV) (w : List String) : Except String Unit × List String := (.error "unsupported", w)
+def dxNotIndexed (_ : DV) : String := "notindexed"
+def dxLoadUp (_ _ : Nat) (_ : List String) : DV := .nil
+def dxSetUp (_ _ : Nat) (_ : DV) (w : List String) : List String := w
+def dxTypecheck (_ : DV) (_ : Nat) : Option String := none
+
+def DX : CallPrims DP where
+  indexedView := dxView
+  notIndexed := dxNotIndexed
+  call := dxCall
+  make := dxErr1
+  closure := fun _ => DV.nil
+  constant := fun _ => DV.nil
+  self := DV.nil
+  loadUpvalue := dxLoadUp
+  setUpvalue := dxSetUp
+  typecheck := dxTypecheck
+  putIndex := dxErr2
+
+def runX (code : List Instr) (slots : List DV) : Option (Except String DV × List String) :=
+  execX DX (fun _ => false) code (code.length + 2) ⟨slots, [], 0⟩ ([] : List String)
+
+def showRun (code : List Instr) (slots : List DV) : String :=
+  let ops := ",".intercalate (code.map fun i => i.op.cName)
+  match runX code slots with
+  | some (.ok _, w) => "ops=" ++ ops ++ " out=" ++ ";".intercalate w
+  | some (.error e, w) => "ops=" ++ ops ++ " out=error:" ++ e ++ ";".intercalate w
+  | none => "ops=" ++ ops ++ " out=stuck"
+
+def handleCall (toks : List String) : Option String :=
+  match toks with
+  | "apply" :: mode :: last :: lead =>
+    match parseVal last, lead.mapM parseVal with
+    | some lv, some lvs =>
+      let n := lvs.length
+      let regs := (List.range n).map (· + 1)
+      let tail : Option Nat := if mode == "tail" then none else some (n + 2)
+      let code := emitApply 0 regs (n + 1) tail ++ (if mode == "tail" then [] else [mkD .return (n + 2)])
+      some (showRun code ([DV.meth "f"] ++ lvs ++ [lv, .nil]))
+    | _, _ => some "bad-request"
+  | "splice" :: pattern :: vals =>
+    match vals.mapM parseVal with
+    | some vs =>
+      if pattern.length != vs.length then some "bad-request" else
+      let args : List SArg := (pattern.toList.zipIdx).map fun (c, i) => ⟨i + 1, c == 's'⟩
+      some (showRun (emitGenericCall 0 args none) ([DV.meth "f"] ++ vs))
+    | none => some "bad-request"
+  | _ => none
+
+def main : IO Unit := runLoop () (fun s toks => (s, (handleCall toks).getD (handle toks)))
